@@ -526,14 +526,25 @@ Fixpoint split_ws (s : bytes) : list bytes :=
       else match split_ws s' with p :: ps => (c :: p) :: ps | [] => [[c]] end
   end.
 
+(* `line.splitn(2, JAVA_WHITESPACE)`: the first field and, when there is a separator, the rest as it is
+   (a line that starts with `COMMENT` keeps its text unsplit, fix 85d0185) *)
+Fixpoint splitn2_ws (s : bytes) : list bytes :=
+  match s with
+  | [] => [[]]
+  | c :: s' =>
+      if java_ws c then [[]; s']
+      else match splitn2_ws s' with p :: ps => (c :: p) :: ps | [] => [[c]] end
+  end.
+
 (* EnigmaLine::new; None = the line is empty after removing the `#` comment *)
 Definition enigma_line (l : bytes) : out (option tline) :=
   let k := count_tabs l in
   let! r := slice_from l k in                                       (* &line[idents..] *)
-  let r' := if starts_with s_COMMENT r then r else trim (strip_hash r) in
+  let is_comment := starts_with s_COMMENT r in
+  let r' := if is_comment then r else trim (strip_hash r) in
   match r' with
   | [] => Done None
-  | _ => match split_ws r' with
+  | _ => match (if is_comment then splitn2_ws r' else split_ws r') with
          | f :: fs => Done (Some (mkTline k f fs))
          | [] => Fail
          end
